@@ -69,6 +69,28 @@ def parseSub (t : String) : Option KSub :=
 def parseSubs (t : String) : Option (List KSub) :=
   if t = "-" then some [] else (splitOn1 t ';').mapM parseSub
 
+/-- `kerx drv` infos: gid:mask:class:di, class 0 none / 1 base / 2 ligature / 3 mark -/
+def parseKxInfo (t : String) : Option KInfo :=
+  match nats (splitOn1 t ':') with
+  | some [g, m, cls, di] => some { gid := g, mask := m, mark := cls = 3, di := di ≠ 0 }
+  | _ => none
+
+def parseKxInfos (t : String) : Option (Array KInfo) :=
+  if t = "-" then some #[] else ((splitOn1 t ',').mapM parseKxInfo).map List.toArray
+
+/-- `kerx drv` subtable: v:h:c:format:pairs — the pairs are every non-zero `glyphs_kerning` value of the subtable
+    (sorted by key), whatever its format -/
+def parseXSub (t : String) : Option XSub :=
+  match splitOn1 t ':' with
+  | [v, h, c, f, ps] => do
+      let pairs ← parsePairs ps
+      pure { isVariable := v = "1", horizontal := h = "1", crossStream := c = "1", format := (← f.toNat?),
+             kernOf := fmt0Kerning pairs }
+  | _ => none
+
+def parseXSubs (t : String) : Option (List XSub) :=
+  if t = "-" then some [] else (splitOn1 t ';').mapM parseXSub
+
 def b01 (b : Bool) : String := if b then "1" else "0"
 
 /-- the model side of `gp sub`: `kind-specific tokens` -/
@@ -120,6 +142,39 @@ def applyModel (d : Dir) (idx : Nat) (m : List String) (p : Array Pos) : Option 
       | _ => none
   | _ => none
 
+
+/-- `-` = no device table, else the delta the device yields at the face's ppem -/
+def parseDev (t : String) : Option (Option Int) :=
+  if t = "-" then some none else t.toInt?.map some
+
+/-- eight tokens: xPlacement yPlacement xAdvance yAdvance xPlaDevice yPlaDevice xAdvDevice yAdvDevice -/
+def parseVRD : List String → Option ValueRecordD
+  | [xp, yp, xa, ya, d1, d2, d3, d4] => do
+      pure { xPlacement := (← xp.toInt?), yPlacement := (← yp.toInt?), xAdvance := (← xa.toInt?), yAdvance := (← ya.toInt?),
+             xPlaDevice := (← parseDev d1), yPlaDevice := (← parseDev d2), xAdvDevice := (← parseDev d3),
+             yAdvDevice := (← parseDev d4) }
+  | _ => none
+
+/-- the model side of `gp subd`: value records with device tables on a face with ppem (ux / uy = ppem_x / ppem_y ≠ 0) -/
+def applyModelD (d : Dir) (idx : Nat) (m : List String) (p : Array Pos) : Option String :=
+  let unchanged := s!"ok 0 {idx} 0 {fmtPoss p}"
+  match m with
+  | "singled" :: ux :: uy :: rest => do
+      let (vt, applies) := (rest.take 8, rest.drop 8)
+      let v ← parseVRD vt
+      if applies = ["0"] then pure unchanged else
+      match valueApplyD v (ux = "1") (uy = "1") d p idx with
+      | .ok (q, _) => pure s!"ok 1 {idx + 1} 0 {fmtPoss q}"
+      | .error e => pure (errStr e)
+  | "paird" :: j :: ux :: uy :: rest => do
+      let j ← j.toNat?
+      let v1 ← parseVRD (rest.take 8)
+      let v2 ← parseVRD ((rest.drop 8).take 8)
+      if rest.drop 16 = ["0"] then pure unchanged else
+      match pairApplyD v1 v2 (ux = "1") (uy = "1") d p idx j with
+      | .ok (q, _, _) => pure s!"ok 1 {if v2.isEmpty then j else j + 1} 0 {fmtPoss q}"
+      | .error e => pure (errStr e)
+  | _ => none
 
 /-! ### `gp pos`: the attachment lookups of a whole GPOS table on an injected buffer (model: GposMark.lean) -/
 section pos
@@ -228,7 +283,7 @@ def handlePos (d finish infos : String) (rest : List String) : Option String := 
 
 end pos
 
-def cmds : List String := ["gp", "kern"]
+def cmds : List String := ["gp", "kern", "kerx"]
 
 def handle (ts : List String) : Option String :=
   match ts with
@@ -263,6 +318,11 @@ def handle (ts : List String) : Option String :=
       let (m, ps) := splitBar rest
       let p ← parsePoss ps
       applyModel d idx m p
+  | "gp" :: "subd" :: _px :: _py :: _kind :: _hex :: _props :: d :: idx :: _infos :: rest => do
+      let d ← parseDir d; let idx ← idx.toNat?
+      let (m, ps) := splitBar rest
+      let p ← parsePoss ps
+      applyModelD d idx m p
   | "kern" :: "mk" :: d :: len :: mask :: cross :: pairs :: infos :: rest => do
       let d ← parseDir d; let len ← len.toNat?; let mask ← mask.toNat?
       let tr ← parseTriples pairs; let infos ← parseKInfos infos
@@ -277,6 +337,16 @@ def handle (ts : List String) : Option String :=
       let (_, ps) := splitBar rest
       let p ← parsePoss ps
       match kernDriver subs (req = "1") mask d (fun _ b => b) { infos, pos := p, len := infos.size } with
+      | .ok b =>
+        let gs := joinNats (b.infos.toList.map (·.gid)) ","
+        pure s!"ok {b01 b.attach} {if gs.isEmpty then "-" else gs} {fmtPoss b.pos}"
+      | .error e => pure (errStr e)
+  | "kerx" :: "drv" :: _hex :: d :: _feat :: mask :: req :: subs :: infos :: rest => do
+      let d ← parseDir d; let mask ← mask.toNat?
+      let subs ← parseXSubs subs; let infos ← parseKxInfos infos
+      let (_, ps) := splitBar rest
+      let p ← parsePoss ps
+      match kerxDriver subs (req = "1") mask d (fun _ b => b) { infos, pos := p, len := infos.size } with
       | .ok b =>
         let gs := joinNats (b.infos.toList.map (·.gid)) ","
         pure s!"ok {b01 b.attach} {if gs.isEmpty then "-" else gs} {fmtPoss b.pos}"
